@@ -57,6 +57,8 @@ CORE_SELECTOR_QUERIES = [
     ([["desc", [["index", 0], ["index", 0]]]], "nest2"),
     ([["child", [["slice", 1, None, None]]], ["child", [["wild"]]]], "nest2"),
     ([["child", [["wild"]]], ["child", [["name", "a"]]]], "nest2"),
+    ([["child", [["wild"]]], ["child", [["name", "a"], ["name", "b"]]]], "nest2"),
+    ([["desc", [["wild"]]], ["child", [["name", "b"], ["name", "a"]]]], "deep"),
     ([["desc", [["wild"]]], ["child", [["name", "a"]]]], "deep"),
     ([["child", [["name", "b"]]], ["desc", [["wild"]]]], "deep"),
     ([["child", [["index", 0], ["index", 1], ["index", -1]]]], "numkeys"),
